@@ -222,14 +222,35 @@ def concrete_box_samples(args):
     return body
 
 
+SCALABLE = ('Rosenbrock', 'Ackley', 'Sphere', 'Schwefel', 'ModifiedEasom', 'EqualityConstr', 'Griewank', 'Perm', 'Rastrigin',
+            'Zakharov', 'XinSheYang', 'XinSheYang2', 'XinSheYang3', 'AlpineFunction')
+
+
 def configs(tier):
     out = []
+    # the optimum-value clause (no quantifier, evaluated on the real code) and the concrete box samples are cheap:
+    # every dimension up to 12 (quick) / 30 (thorough) for the functions whose constructor accepts a dimension
+    seen = set()
+    many = list(range(1, 13)) + [16, 20, 24, 30] if tier == 'quick' else list(range(1, 31))
+    for name in SCALABLE:
+        for d in many:
+            if name == 'Rosenbrock' and d < 2:
+                continue
+            kw = {'dimension': d}
+            tag = '%s-d%d' % (name, d)
+            seen.add(tag)
+            out.append({'name': 'O-' + tag, 'task': 'optimum_value', 'args': {'name': name, 'mod': 'BF', 'kwargs': kw}, 'weight': 1,
+                        'engine': {'validate': 2}})
+            out.append({'name': 'S-' + tag, 'task': 'concrete_box_samples', 'args': {'name': name, 'mod': 'BF', 'kwargs': kw}, 'weight': 1,
+                        'engine': {'validate': 0}})
     for name, modk, kws, prove, eng in specs(tier):
         for kw in kws:
             tag = '%s%s' % (name, ('-d%d' % kw['dimension']) if 'dimension' in kw else '')
             e = dict({'validate': 5, 'first_timeout_s': 2, 'query_timeout_s': 30, 'final_timeout_s': 40}, **eng)
             out.append({'name': 'TB-' + tag, 'task': 'totality_and_bound',
                         'args': {'name': name, 'mod': modk, 'kwargs': kw, 'prove': prove}, 'weight': 5, 'engine': e})
+            if tag in seen:
+                continue
             out.append({'name': 'O-' + tag, 'task': 'optimum_value', 'args': {'name': name, 'mod': modk, 'kwargs': kw},
                         'weight': 1, 'allow_no_reach': False, 'engine': {'validate': 2}})
             out.append({'name': 'S-' + tag, 'task': 'concrete_box_samples', 'args': {'name': name, 'mod': modk, 'kwargs': kw},
